@@ -6,5 +6,18 @@ def ssActive : Nat := 0
 def ssNotified : Nat := 2
 def ssSize : Nat := 4
 def ssSuspended : Nat := 1
+/-- coroutine_waiter::pause: `!my_arena.is_empty() || sp->m_is_owner_recalled.load(std::memory_order_relaxed)` -/
+def coWakeupPred (non_empty recalled : Bool) : Bool := ((!(!non_empty)) || recalled)
+def hasTasksScansResume : Bool := true
+def resumeAdvertises : Bool := true
+def resumePushFirst : Bool := true
+def recallNotifies : Bool := true
+def omitLocal (isolation task_iso : Nat) : Bool := ((decide (isolation ≠ (0 : Nat))) && (decide (isolation ≠ task_iso)))
+def stealOk (isolation task_iso : Nat) : Bool := ((decide (isolation = (0 : Nat))) || (decide (isolation = task_iso)))
+def mailSkip (isolation task_iso : Nat) : Bool := ((decide (isolation ≠ (0 : Nat))) && (decide (task_iso ≠ isolation)))
+def fifoOk (isolation : Nat) : Bool := (true && (decide (isolation = (0 : Nat))))
+def critSpecific (isolation : Nat) : Bool := (decide (isolation ≠ (0 : Nat)))
+/-- isolation of the dispatcher a suspending thread moves onto, as a function of the suspender's (observed on 28 suspensions) -/
+def coInit (suspender_iso : Nat) : Nat := 0
 
 end TbbVerif.Generated.C20
